@@ -272,3 +272,142 @@ def enclosing_loops(f: Func, sub: ast.AST) -> List[ast.AST]:
 
 def str_consts(e: ast.AST) -> List[str]:
     return [n.value for n in ast.walk(e) if isinstance(n, ast.Constant) and isinstance(n.value, str)]
+
+
+# ---------------------------------------------------------------- alias expansion and helper inlining
+def _single_alias(f: Func, name: str) -> Optional[ast.AST]:
+    """the attribute chain a local name stands for, when it is assigned exactly once from a call-free Name/Attribute chain."""
+    if name in f.params:
+        return None
+    vals = assigned_values(f, name)
+    if len(vals) != 1:
+        return None
+    v = vals[0]
+    x = v
+    while isinstance(x, ast.Attribute):
+        x = x.value
+    if isinstance(v, ast.Attribute) and isinstance(x, ast.Name):
+        return v
+    return None
+
+
+class _Expand(ast.NodeTransformer):
+    def __init__(self, f: Func):
+        self.f = f
+        self.depth = 0
+
+    def visit_Name(self, node: ast.Name):
+        if self.depth > 4:
+            return node
+        a = _single_alias(self.f, node.id)
+        if a is not None and isinstance(node.ctx, ast.Load):
+            self.depth += 1
+            try:
+                return self.visit(ast.parse(ast.unparse(a), mode="eval").body)
+            finally:
+                self.depth -= 1
+        return node
+
+
+def chain(f: Func, e: ast.AST) -> str:
+    """normalised text of e with local aliases of attribute chains expanded (`substreams.digests` -> `self.header...substreamsinfo.digests`)."""
+    try:
+        t = ast.parse(ast.unparse(e), mode="eval").body
+    except SyntaxError:
+        return norm(e)
+    return norm(_Expand(f).visit(t))
+
+
+def deep_nodes(ctx, f: Func, depth: int = 2, same_module_only: bool = True, _via: Optional[ast.Call] = None, _seen: Optional[Set[str]] = None):
+    """yield (owner function, node, via) for every AST node of f and of the package helpers it calls (resolved, up to `depth`).
+    `via` is the call node IN f through which the owner was reached (None for f's own nodes): ordering rules use via's position."""
+    _seen = _seen if _seen is not None else {f.qname}
+    for n in walk(f.node):
+        yield f, n, _via
+    if depth <= 0:
+        return
+    for cs in ctx.res.sites_in(f):
+        if cs.kind not in ("exact", "unique"):
+            continue
+        for g in cs.targets:
+            if g.qname in _seen or g.name == "__init__":
+                continue
+            if same_module_only and g.module != f.module:
+                continue
+            _seen.add(g.qname)
+            via = _via if _via is not None else cs.node
+            for item in deep_nodes(ctx, g, depth - 1, same_module_only, via, _seen):
+                yield item
+
+
+# ---------------------------------------------------------------- structural patterns with metavariables
+def _pat(src: str, mode: str = "eval") -> ast.AST:
+    t = ast.parse(src.replace("$", "_M_"), mode=mode)
+    return t.body if mode == "eval" else t.body[0]
+
+
+def unify(pat: ast.AST, node: ast.AST, binds: Dict[str, ast.AST]) -> bool:
+    """structural match of `pat` against `node`; Names `_M_X` in pat are metavariables bound consistently to sub-expressions."""
+    if isinstance(pat, ast.Name) and pat.id.startswith("_M_"):
+        k = pat.id[3:]
+        if k in binds:
+            return ast.dump(binds[k]) == ast.dump(node) if isinstance(node, ast.AST) else False
+        if not isinstance(node, ast.expr):
+            return False
+        binds[k] = node
+        return True
+    if type(pat) is not type(node):
+        return False
+    for fld in pat._fields:
+        if fld in ("ctx", "type_comment", "kind"):
+            continue
+        a, b = getattr(pat, fld, None), getattr(node, fld, None)
+        if isinstance(a, list):
+            if not isinstance(b, list) or len(a) != len(b):
+                return False
+            for x, y in zip(a, b):
+                if isinstance(x, ast.AST):
+                    if not unify(x, y, binds):
+                        return False
+                elif x != y:
+                    return False
+        elif isinstance(a, ast.AST):
+            if not isinstance(b, ast.AST) or not unify(a, b, binds):
+                return False
+        elif a != b:
+            return False
+    return True
+
+
+def find(root: ast.AST, pattern: str, binds: Optional[Dict[str, ast.AST]] = None, mode: str = "eval"):
+    """yield (node, bindings) for every sub-node of root matching the pattern (bindings extend `binds`)."""
+    p = _pat(pattern, mode)
+    for n in ast.walk(root):
+        b = dict(binds or {})
+        if unify(p, n, b):
+            yield n, b
+
+
+class _ExpandLocals(ast.NodeTransformer):
+    def __init__(self, f: Func, keep: Set[str]):
+        self.f, self.keep, self.depth = f, keep, 0
+
+    def visit_Name(self, node: ast.Name):
+        if not isinstance(node.ctx, ast.Load) or node.id in self.keep or node.id in self.f.params or self.depth > 5:
+            return node
+        vals = assigned_values(self.f, node.id)
+        # only plain single assignments (not loop targets / augmented assignments)
+        plain = [n for n in walk(self.f.node) if isinstance(n, ast.Assign) and len(n.targets) == 1 and isinstance(n.targets[0], ast.Name) and n.targets[0].id == node.id]
+        if len(vals) == 1 and len(plain) == 1:
+            self.depth += 1
+            try:
+                return self.visit(ast.parse(ast.unparse(plain[0].value), mode="eval").body)
+            finally:
+                self.depth -= 1
+        return node
+
+
+def expand_locals(f: Func, e: ast.AST, keep: Iterable[str] = ()) -> ast.AST:
+    """e with every singly-assigned local replaced by its defining expression (transitively)."""
+    t = ast.parse(ast.unparse(e), mode="eval").body
+    return ast.fix_missing_locations(_ExpandLocals(f, set(keep)).visit(t))
